@@ -108,6 +108,14 @@ def doDpdc (l : Line) : Option String := do
   let (s, log) := runLog step (·.1) n ((x0 : RV), (y0 : RV)) []
   some s!"ok log={showLog log} x={showVec s.1} y={showVec s.2}"
 
+/-- `sq=1`: the operator is the NON-LINEAR `x ↦ A (x ⊙ x)` (ODL: `MatrixOperator(A) * PowerOperator(2)`),
+whose derivative at `x` is `A diag(2x)` with adjoint `w ↦ 2 x ⊙ (Aᵀ w)` — the point of
+linearisation matters. -/
+def nlOp (sq : Bool) (A : Mat Rat) : RV → RV :=
+  if sq then fun x => A.mulVec (Vec.mul x x) else A.mulVec
+def nlAdj (sq : Bool) (At : Mat Rat) : RV → RV → RV :=
+  if sq then fun x w => (2 : Rat) • Vec.mul x (At.mulVec w) else fun _ => At.mulVec
+
 /-- `landweber A= At= rhs= omega= proj=<pspec>|none x0= n=` -/
 def doLandweber (l : Line) : Option String := do
   let A ← Line.matR? l "A"
@@ -118,7 +126,8 @@ def doLandweber (l : Line) : Option String := do
   let x0 ← l.rats? "x0"
   let n ← l.nat? "n"
   shape? A rhs.length x0.length; shape? At x0.length rhs.length
-  let P : LandweberP Rat RV RV := ⟨A.mulVec, fun _ => At.mulVec, rhs, omega, proj.map (·.eval)⟩
+  let sq := l.get? "sq" = some "1"
+  let P : LandweberP Rat RV RV := ⟨nlOp sq A, nlAdj sq At, rhs, omega, proj.map (·.eval)⟩
   let (s, log) := runLog P.step (·.x) n (P.init x0 (junk rhs.length) (junk x0.length)) []
   some s!"ok log={showLog log} x={showVec s.x}"
 
@@ -212,7 +221,8 @@ def doPdhg (l : Line) : Option String := do
   let y ← match l.get? "y" with
     | none => some none
     | some _ => (l.rats? "y").map some
-  let P : PdhgP Rat RV RV := ⟨A.mulVec, fun _ => At.mulVec, pf.eval, pgc.eval, tau, sigma, theta⟩
+  let sq := l.get? "sq" = some "1"
+  let P : PdhgP Rat RV RV := ⟨nlOp sq A, nlAdj sq At, pf.eval, pgc.eval, tau, sigma, theta⟩
   let (s, log) := runLog P.step (·.x) n (P.init x0 xr y (Vec.zero dw) (junk dv) (junk dw)) []
   some s!"ok log={showLog log} x={showVec s.x} xr={showVec s.xRelax} y={showVec s.y}"
 
